@@ -1,6 +1,7 @@
 package checks
 
 import (
+	"bytes"
 	"encoding/json"
 	"fmt"
 	"math/rand"
@@ -73,14 +74,14 @@ var lexTable = map[string][]lexeme{
 // odd spellings per type; which of them are in the type's lexical space - and which typed value they denote - is
 // decided by the trusted oracle (classify: strconv / time.Parse), not written down here
 var oddLex = map[string][]string{
-	"int":      {"+5", "007", "-0", "1e3", "0x10", "1_000", "5.0", "٣", "9223372036854775807", "-9223372036854775809"},
-	"int64":    {"+5", "007", "-0", "1e3", "0x10", "1_000", "5.0", "٣", "-9223372036854775809"},
-	"int32":    {"+5", "007", "-0", "1e3", "0x10", "2147483648", "-2147483649", "5.0"},
-	"double":   {"1e3", "1E3", ".5", "5.", "-0", "+1.5", "NaN", "Inf", "-Inf", "infinity", "0x1p-2", "1_0.5", "1e-400", "4.9e-324", "1e308", "1e309", "00.5", "1.5e+3"},
-	"float":    {"1e3", ".5", "5.", "-0", "+1.5", "NaN", "-Inf", "0x1p-2", "1e-60", "1e38", "3.5e38", "1.401298464324817e-45"},
+	"int":    {"+5", "007", "-0", "1e3", "0x10", "1_000", "5.0", "٣", "9223372036854775807", "-9223372036854775809"},
+	"int64":  {"+5", "007", "-0", "1e3", "0x10", "1_000", "5.0", "٣", "-9223372036854775809"},
+	"int32":  {"+5", "007", "-0", "1e3", "0x10", "2147483648", "-2147483649", "5.0"},
+	"double": {"1e3", "1E3", ".5", "5.", "-0", "+1.5", "NaN", "Inf", "-Inf", "infinity", "0x1p-2", "1_0.5", "1e-400", "4.9e-324", "1e308", "1e309", "00.5", "1.5e+3"},
+	"float":  {"1e3", ".5", "5.", "-0", "+1.5", "NaN", "-Inf", "0x1p-2", "1e-60", "1e38", "3.5e38", "1.401298464324817e-45"},
 	"datetime": {"2024-02-29T23:59:60Z", "0001-01-01T00:00:00Z", "9999-12-31T23:59:59.999999999Z", "2024-01-02T03:04:05+14:00", "2024-01-02T03:04:05-00:00", "2024-01-02T03:04:05.5Z", "2024-01-02T24:00:00Z", "2024-01-02 03:04:05Z", "2024-01-02t03:04:05z", "2023-02-29T00:00:00Z", "2024-01-02T03:04:05", "2024-01-02T03:04:05+0200", "2024-1-2T03:04:05Z", "2024-01-02T03:04:05,5Z", "1969-12-31T23:59:59-12:00",
 		"2016-12-31T23:59:59.123456789012+05:30", "2024-01-02T03:04:05.000000000000000Z", "2024-01-02T03:04:05.1234567890123456789012345678901234567890Z"},
-	"bool":     {"TRUE", "True", "1", "0", "t", "f", "false "},
+	"bool": {"TRUE", "True", "1", "0", "t", "f", "false "},
 }
 
 func init() {
@@ -575,7 +576,15 @@ func checkC04(c *core.Check) {
 	c.AddTLC(jr.TLC)
 	c.Drift("Params (generated parse order: which of several failing parameters is named)", jr.Drifts)
 	c.Add("traces_validated_against_impl", int64(run.requests))
-	c.Add("evaluations", int64(run.requests))
+	// (Parse() is called twice per request and both outcomes are judged: an evaluation is one judged outcome)
+	nParse := 0
+	for _, ev := range events {
+		if bytes.Contains(ev, []byte(`"ev":"Parse"`)) {
+			nParse++
+		}
+	}
+	c.Add("evaluations", int64(nParse))
+	c.Cov["requests"] = run.requests
 	c.Add("programs", int64(run.programs))
 	c.Add("distinct_nontrivial", int64(jr.Nontriv))
 	c.Cov["exhaustive"] = false
